@@ -448,7 +448,8 @@ func runCell(c *Cell) []result {
 				continue
 			}
 			before := w.snap()
-			text := fmt.Sprintf("rule \"r\" begin\n  %s%s = %s\nend\n", pre, tt, srcText)
+			asg := []string{"=", "="," :="}[r.Intn(3)] // both spellings of a plain assignment
+			text := fmt.Sprintf("rule \"r\" begin\n  %s%s %s %s\nend\n", pre, tt, strings.TrimSpace(asg), srcText)
 			_, err, pv := exec(text, setup)
 			if err != nil && strings.HasPrefix(err.Error(), "COMPILE") {
 				fail("compile", err.Error(), text)
@@ -696,12 +697,12 @@ func runCell(c *Cell) []result {
 			v := int64(1 + r.Intn(100))
 			var text string
 			if c.Path == "ptr" {
-				text = fmt.Sprintf("rule \"r\" begin\n  p = %d\n  loc = 5\n  return loc\nend\n", v)
+				text = fmt.Sprintf("rule \"r\" begin\n  p %s %d\n  loc = 5\n  return loc\nend\n", []string{"=", ":="}[r.Intn(2)], v)
 			} else if c.Path == "late" {
 				// `late` is a rule local first; then a function called by the rule injects an object under that name
 				text = fmt.Sprintf("rule \"r\" begin\n  late = %d\n  first = late\n  injectLate()\n  return late\nend\n", v+1000)
 			} else {
-				text = fmt.Sprintf("rule \"r\" begin\n  val = %d\n  return val\nend\n", v)
+				text = fmt.Sprintf("rule \"r\" begin\n  val %s %d\n  return val\nend\n", []string{"=", ":="}[r.Intn(2)], v)
 			}
 			orig := mk(c.Kind, 3, "", false)
 			res, err, pv := exec(text, func(dc *context.DataContext) {
